@@ -87,11 +87,11 @@ def keyed_grouped(p, items):
         drive.tap(head), rs.ops.map(lambda i: i[1]), *A.build_pipeline(p, env), drive.tap(tail)])]
     r = drive.store([tuple(i) for i in items], ops)
     keymap = {}
-    for kind, key, item in head:
+    for kind, key, item, _t in head:
         if kind == 'n':
             keymap[key] = item[0]
     per = {}
-    for kind, key, item in tail:
+    for kind, key, item, _t in tail:
         if kind == 'n':
             per.setdefault(keymap.get(key, ('?', key)), []).append(item)
     return r, per, env.actions
@@ -121,7 +121,7 @@ def keyed_raw(p, case):
     r = drive.rawmux(events, A.build_pipeline(p, env) + [drive.tap(tail)])
     per = {}
     back = {idx[k]: k for k in order}
-    for kind, key, item in tail:
+    for kind, key, item, _t in tail:
         if kind == 'n':
             per.setdefault(back.get(key[0], ('?', key)), []).append(item)
     return r, per, env.actions
